@@ -272,6 +272,7 @@ def arr_getitem(M, a, base, idx, st, node):
         raise Unsupported('several advanced indices')
     # build result dims
     out_shape, maps = [], []     # maps: per source dim, function of result indices
+    mask_w = None
     pos = 0
     view = True
     for ix, k, d in zip(idx, kinds, a.shape):
@@ -319,10 +320,15 @@ def arr_getitem(M, a, base, idx, st, node):
             mv = st.deref(ix)
             same = EQ(mv.shape[0], d); ex.oblige(st, 'shape', same, node); st.assume(same)
             w = where_enum(M, mv, st)
+            mask_w = w
             out_shape.append(w.shape[0])
             maps.append(lambda res, p=pos, w=w: w.get(res[p])); pos += 1
             view = False
     res = SArr(tuple(out_shape), lambda *r: a.get(*[m(r) for m in maps]), a.kind)
+    if kinds == ['full', 'mask'] and a.ndim == 2:
+        mc = dict(st.ghost.get('mask_cols', {}))
+        mc[id(res.get)] = mask_w
+        st.ghost['mask_cols'] = mc
     if view and isinstance(base, Ref):
         root = base.root if base.origin == 'alias' and base.root is not None else base.oid
         note = 'view of ' + (base.note or M.ex.frame_roots.get(base.oid, 'object'))
